@@ -72,7 +72,7 @@ func (hs *handleSet) addWrappers(fn *ssa.Function) {
 	changed := true
 	for changed {
 		changed = false
-		allInstrs(fn, func(in ssa.Instruction) {
+		allInstrsIn(fn, func(in ssa.Instruction) {
 			call, ok := in.(*ssa.Call)
 			if !ok {
 				return
@@ -113,7 +113,7 @@ func (hs *handleSet) addWrappers(fn *ssa.Function) {
 			}
 		})
 		// cells holding wrappers
-		allInstrs(fn, func(in ssa.Instruction) {
+		allInstrsIn(fn, func(in ssa.Instruction) {
 			if st, ok := in.(*ssa.Store); ok {
 				if al, isAl := st.Addr.(*ssa.Alloc); isAl && !hs.cells[al] && hs.is(st.Val) {
 					if _, isStruct := al.Type().(*types.Pointer).Elem().Underlying().(*types.Struct); !isStruct {
@@ -169,6 +169,12 @@ func (hs *handleSet) is(v ssa.Value) bool {
 			if x.Op == token.MUL && (hs.cells[x.X] || hs.vals[x.X]) {
 				return true
 			}
+			// read through the free variable of a closure: the enclosing function's cell
+			if fv, isFV := x.X.(*ssa.FreeVar); isFV && x.Op == token.MUL {
+				if al := boundCell(fv); al != nil && hs.cells[al] {
+					return true
+				}
+			}
 		}
 		return false
 	}
@@ -188,7 +194,7 @@ func buildHandleSet(fn *ssa.Function, roots []ssa.Value, cells []ssa.Value) *han
 	changed := true
 	for changed {
 		changed = false
-		allInstrs(fn, func(in ssa.Instruction) {
+		allInstrsIn(fn, func(in ssa.Instruction) {
 			st, ok := in.(*ssa.Store)
 			if !ok {
 				return
@@ -670,7 +676,7 @@ func (o *ownCtx) held(fn *ssa.Function, hs *handleSet, from []ssa.Instruction, f
 // closureHandle maps the parent's handle aliases to the closure's free variables.
 func (o *ownCtx) closureHandle(parent, cl *ssa.Function, hs *handleSet) *handleSet {
 	var mc *ssa.MakeClosure
-	allInstrs(parent, func(in ssa.Instruction) {
+	allInstrsIn(parent, func(in ssa.Instruction) {
 		if m, ok := in.(*ssa.MakeClosure); ok && m.Fn == ssa.Value(cl) {
 			mc = m
 		}
@@ -765,7 +771,7 @@ func (o *ownCtx) checkDerived(ru *Rule, fn *ssa.Function, hs *handleSet, site st
 	if level > 2 {
 		return
 	}
-	allInstrs(fn, func(in ssa.Instruction) {
+	allInstrsIn(fn, func(in ssa.Instruction) {
 		call, ok := in.(*ssa.Call)
 		if !ok {
 			return
@@ -843,7 +849,7 @@ func (o *ownCtx) checkClosures(ru *Rule, fn *ssa.Function, hs *handleSet, site s
 		}
 		// a deferred closure that conditionally releases is accounted in held()
 		isDeferredCond := false
-		allInstrs(fn, func(in ssa.Instruction) {
+		allInstrsIn(fn, func(in ssa.Instruction) {
 			if d, ok := in.(*ssa.Defer); ok && d.Call.StaticCallee() == cl {
 				isDeferredCond = true
 			}
@@ -855,7 +861,7 @@ func (o *ownCtx) checkClosures(ru *Rule, fn *ssa.Function, hs *handleSet, site s
 		// responsible for it) still must not leak it if they are the sole owner: we require
 		// ownership only of closures started with `go` or registered as cleanup callbacks.
 		owner := false
-		allInstrs(fn, func(in ssa.Instruction) {
+		allInstrsIn(fn, func(in ssa.Instruction) {
 			switch x := in.(type) {
 			case *ssa.Go:
 				if mc, ok := x.Call.Value.(*ssa.MakeClosure); ok && mc.Fn == ssa.Value(cl) {
@@ -896,7 +902,7 @@ func returnedObjectRegistered(callee *ssa.Function) bool {
 		v := strip(r.(*ssa.Return).Results[0])
 		hs := buildHandleSet(callee, []ssa.Value{v}, nil)
 		found := false
-		allInstrs(callee, func(in ssa.Instruction) {
+		allInstrsIn(callee, func(in ssa.Instruction) {
 			switch x := in.(type) {
 			case *ssa.MapUpdate:
 				if hs.is(x.Key) || hs.is(x.Value) {
@@ -1060,7 +1066,7 @@ func (o *ownCtx) closureValues(fn *ssa.Function, v ssa.Value) []*ssa.Function {
 				}
 			}
 			var out []*ssa.Function
-			allInstrs(parent, func(in ssa.Instruction) {
+			allInstrsIn(parent, func(in ssa.Instruction) {
 				if mc, ok := in.(*ssa.MakeClosure); ok && mc.Fn == ssa.Value(fn) && idx >= 0 {
 					switch b := mc.Bindings[idx].(type) {
 					case *ssa.Alloc:
@@ -1149,7 +1155,7 @@ func (o *ownCtx) mayRelease(cl *ssa.Function, seen map[*ssa.Function]bool) bool 
 	seen[cl] = true
 	chs := o.handleIn(cl)
 	found := false
-	allInstrs(cl, func(in ssa.Instruction) {
+	allInstrsIn(cl, func(in ssa.Instruction) {
 		if chs != nil && o.isRelease(in, chs) {
 			found = true
 		}
